@@ -14,6 +14,10 @@ from harness.drivers import keys as K
 KNOWN_DEFECTS = ["ed_no_verify_key", "ed_sig_length", "ecdsa_negative", "alg_not_text"]
 MUTATIONS = ["mut_skip_alg_check", "mut_ignore_data", "mut_ignore_hash"]
 INVS = ["Total", "AcceptsGenuine", "RejectsForged", "InModel"]
+BASE_NAMES = ["ssh-rsa", "rsa-sha2-256", "rsa-sha2-512", "ecdsa-sha2-nistp256", "ecdsa-sha2-nistp384",
+              "ecdsa-sha2-nistp521", "ssh-ed25519"]
+ALL_NAMES = set(BASE_NAMES) | {n + K.CERT_SUFFIX for n in BASE_NAMES}
+QUICK_FOREIGN = {"ssh-rsa", "ecdsa-sha2-nistp384", "ssh-ed25519", "rsa-sha2-512" + K.CERT_SUFFIX}
 MSG_LENGTHS = [0, 1, 20, 32, 64, 300]
 
 
@@ -155,10 +159,11 @@ def describe_factory(runner):
             what = "%s.verify_ssh_sig raised %s (verifier %s; signature by %s, algorithm %s, tamper %s: %s)" % (
                 info["verifier_source"]["class"], info["detail"], info["verifier"], info["signer"], r["alg"], tam, info["tamper"])
         elif clause == "P_genuine_rejected":
-            key = "P_genuine_rejected:%s:%s:%s->%s" % (r["stype"], r["alg"], r["sprov"], r["vprov"])
+            key = "P_genuine_rejected:%s:%s" % (r["stype"], r["alg"])
             what = "an untouched %s signature made by %s is rejected by %s" % (r["alg"], info["signer"], info["verifier"])
         elif clause == "P_forgery_accepted":
-            key = "P_forgery_accepted:%s:%s:%s:key=%s:data=%s" % (r["vtype"], r["alg"], tam, rel, r["data"])
+            key = "P_forgery_accepted:%s:%s:key=%s:data=%s" % (K.family(r["vtype"]), r["tcls"], rel,
+                                                               "signed" if r["data"] == "d1" else "other")
             what = "verify_ssh_sig answered True for key=%s data=%s tamper=%s (%s); signer %s, verifier %s" % (
                 rel, "signed" if r["data"] == "d1" else "other", tam, info["tamper"], info["signer"], info["verifier"])
         else:
@@ -195,7 +200,11 @@ def run(c):
     if getattr(c, "replay_file", None):
         return replay(c)
     # ---- M: the property on the model; the pinned code's behaviour as named defects; mutations
-    r = c.mc_holds("Signatures", cfg_text(constants={"Defects": set()}, invariants=INVS + ["Emit"]),
+    foreign = QUICK_FOREIGN if c.quick else ALL_NAMES
+
+    def consts(defects):
+        return {"Defects": set(defects), "ForeignNames": foreign}
+    r = c.mc_holds("Signatures", cfg_text(constants=consts([]), invariants=INVS + ["Emit"]),
                    name="as-stated (Defects = {})", workers=1)
     printed = r.printed("CASE")
     model = {}
@@ -206,17 +215,17 @@ def run(c):
         model.setdefault(case, set()).add(res)
     if not model or not any("true" in m for m in model.values()):
         raise Machinery("vacuous model: %d cases, none accepting" % len(model))
-    c.mc("Signatures", cfg_text(constants={"Defects": set(KNOWN_DEFECTS)}, invariants=INVS),
+    c.mc("Signatures", cfg_text(constants=consts(KNOWN_DEFECTS), invariants=INVS),
          expect="Total", name="faithful to the pinned tree (all four defects)")
     sens = [(d, "Total") for d in KNOWN_DEFECTS] + [(m, "RejectsForged") for m in MUTATIONS]
     if c.quick:                   # one toggle per quick run, rotating with the seed; thorough runs all seven
         sens = [sens[(c.seed + 4) % len(sens)]]
     for d, inv in sens:
-        c.mc("Signatures", cfg_text(constants={"Defects": {d}}, invariants=INVS), expect=inv, name="sensitivity " + d)
+        c.mc("Signatures", cfg_text(constants=consts([d]), invariants=INVS), expect=inv, name="sensitivity " + d)
 
     # ---- RP: every abstract case, concretised
     run_ = Runner(c)
-    variants = 2 if c.quick else 14
+    variants = 2 if c.quick else 10
     cases = sorted(model)
     for case in cases:
         done = 0
@@ -234,7 +243,7 @@ def run(c):
 
     # ---- TV: position-uniform random edits of genuine signatures, classified by the region they hit
     rnd = run_.rnd
-    want = 2500 if c.quick else 60000
+    want = 2500 if c.quick else 40000
     tries = 0
     while len(run_.batch) - n_rp < want and tries < want * 3:
         tries += 1
@@ -254,7 +263,7 @@ def run(c):
     for off in range(0, len(run_.batch), chunk):
         part = run_.batch[off:off + chunk]
         res, _ = c.trace("Signatures_Trace", part,
-                         cfg_text(spec="TSpec", constants={"Defects": set()}, invariants=["Report"]), timeout=1200)
+                         cfg_text(spec="TSpec", constants=consts([]), invariants=["Report"]), timeout=1200)
         if len(res["DONE"]) != len(part):
             raise Machinery("trace validation consumed %d of %d records" % (len(res["DONE"]), len(part)))
         for row in res["VERDICT"]:
